@@ -183,8 +183,11 @@ GLOBAL_FLAGS_WITH_ARG = frozenset(
 
 # Exec flags that take an argument
 EXEC_FLAGS_WITH_ARG = frozenset(
-    {"-e", "--env", "-w", "--workdir", "-u", "--user", "--env-file"}
+    {"-e", "--env", "-w", "--workdir", "-u", "--user", "--env-file", "--detach-keys"}
 )
+
+# Short exec flags that take an argument (may end a cluster like -ie)
+EXEC_SHORT_WITH_ARG = "euw"
 
 # Exec flags that don't take an argument
 EXEC_FLAGS_NO_ARG = frozenset(
@@ -203,17 +206,21 @@ def _extract_exec_inner_command(tokens: list[str]) -> list[str] | None:
         if token in EXEC_FLAGS_WITH_ARG:
             i += 2
             continue
-        if token.startswith("-"):
-            # Check for --flag=value format
-            if "=" in token:
-                i += 1
-                continue
-            # Boolean flag or unknown flag with arg
+        if token.startswith("--"):
+            # --flag or --flag=value
             i += 1
             continue
-        # First non-flag is container name, skip it
-        i += 1
+        if token.startswith("-") and len(token) > 1:
+            # Short cluster: a flag with an argument takes the rest of the word
+            # or, when it is the last letter, the next word
+            k = 1
+            while k < len(token) and token[k] not in EXEC_SHORT_WITH_ARG:
+                k += 1
+            i += 2 if k == len(token) - 1 else 1
+            continue
         break
+    # tokens[i] is the container name (also after --), the command follows
+    i += 1
     return tokens[i:] if i < len(tokens) else None
 
 
